@@ -541,6 +541,19 @@ pub fn run_shard(ctx: &mut Ctx) {
             Ok(None) => ctx.out.count("reopens_while_a_snapshot_of_the_dropped_owner_was_alive", 1),
             Err(e) => ctx.out.inconclusive.push(format!("snapshot round: {}", e)),
         }
+        // (d3) a race for a directory that is still empty
+        for _ in 0..6 {
+            match crate::props::c13x::empty_dir_race_round(r.next()) {
+                Ok((vi, n)) => {
+                    ctx.out.count("empty_directory_races", 1);
+                    ctx.out.count("refusals_in_races_for_an_empty_directory", n);
+                    if let Some(vi) = vi {
+                        ctx.out.viol(vi);
+                    }
+                }
+                Err(e) => ctx.out.inconclusive.push(format!("empty-dir race: {}", e)),
+            }
+        }
         // (e) the owner's worker ends on an I/O error, the owner lives on
         for _ in 0..2 {
             match crate::props::c13x::dead_worker_round(r.next()) {
